@@ -203,13 +203,14 @@ def main():
 
     lines = []
     n_viol = 0
-    os.makedirs(os.path.join(ROOT, "replay", prop), exist_ok=True)
+    REPLAY_DIR = os.path.join(ROOT, "replay" if not os.environ.get("VERIF_NO_EVIDENCE") else "replay/.selftest", prop)
+    os.makedirs(REPLAY_DIR, exist_ok=True)
     for r, ob in violations:
         kf = match_known(findings, r, ob)
         if kf is not None:
             lines.append(f"KNOWN-FINDING: property={prop} {kf['id']}: {kf['what']}")
             continue
-        path = os.path.join(ROOT, "replay", prop, safe_name(ob["full"]) + ".json")
+        path = os.path.join(REPLAY_DIR, safe_name(ob["full"]) + ".json")
         rep = {"property": prop, "obligation": ob["full"], "status": ob["status"], "backend": ob["backend"],
                "function": r["unit"] if r else None, "self_cls": r["self_cls"] if r else None,
                "witness": ob.get("witness"), "goal": ob.get("goal"), "path_trace": ob.get("trace"),
@@ -279,9 +280,10 @@ def main():
         ev["coverage"]["evaluations"] = sum(b.get("evaluations", 0) for b in bounded)
         ev["coverage"]["distinct_nontrivial"] = sum(b.get("distinct_nontrivial", 0) for b in bounded)
         ev["coverage"]["rule"] = "; ".join(b.get("rule", "") for b in bounded)
-    os.makedirs(os.path.join(ROOT, "evidence"), exist_ok=True)
-    with open(os.path.join(ROOT, "evidence", f"{prop}.json"), "w") as f:
-        json.dump(ev, f, indent=1, default=str)
+    if not os.environ.get("VERIF_NO_EVIDENCE"):  # mutation self-test runs must not overwrite evidence
+        os.makedirs(os.path.join(ROOT, "evidence"), exist_ok=True)
+        with open(os.path.join(ROOT, "evidence", f"{prop}.json"), "w") as f:
+            json.dump(ev, f, indent=1, default=str)
 
     print(f"[{prop}] tier={tier} units={len(units)} lemmas={len(lemmas)} obligations={n_obl} discharged={n_dis} "
           f"undecided={len(undecided)} problems={len(problems)} violations={n_viol} wall={wall:.1f}s")
